@@ -46,6 +46,9 @@ func (ex *Executable) String() string {
 func (ex *Executable) Validate(root *Root) (errs []error) {
 	// By name so the errors come in the same order every time, the order of
 	// a map is not stable.
+	if op := ex.Ops[""]; op != nil && 1 < len(ex.Ops) {
+		errs = append(errs, valError(op.line, op.col, "an operation without a name must be the only operation"))
+	}
 	names := make([]string, 0, len(ex.Ops))
 	for name := range ex.Ops {
 		names = append(names, name)
